@@ -1080,6 +1080,15 @@ static Verdict runCase(const Case& c)
          continue;
       }
       std::string dd = firstDiff(seqA[t], seqB[t], "first", "second");
+      // known finding boost-precision-outlives-object: the multiprecision default precision is per thread since fix 485f21d,
+      // but it outlives the SoPlex object that raised it: objects created later in the same thread (members are constructed
+      // before the constructor body resets the precision) start from the boosted precision, so the second identical
+      // sequential run of a program that boosted differs from the first (193 vs 254 iterations in a cloned object)
+      if(!dd.empty() && (infA[t].boosts > 0 || infB[t].boosts > 0) && knownKey("boost-precision-outlives-object"))
+      {
+         e.count("excluded_known.boost-precision-outlives-object");
+         continue;
+      }
       if(!dd.empty())
       {
          v.fail(std::string("sequential run not reproducible (") + modeName(ps[t].mode) + ") " + dd);
